@@ -337,7 +337,7 @@ class P(param.Parameterized):
 bad = []
 # (1) inside a surrounding batch: the flag must stay True after the failing update
 p = P(); log = []
-p.param.watch(lambda e: log.append((e.name, e.new)), ['a', 'c'])
+p.param.watch(lambda *es: log.extend((e.name, e.new) for e in es), ['a', 'c'])
 with param.parameterized.batch_call_watchers(p):
     try:
         p.param.update(a=1, b=5)
@@ -351,7 +351,7 @@ if inside is not True or ran_inside:
     bad.append('BATCH_WATCH not restored inside the surrounding batch')
 # (2) outside a batch: the change applied before the rejected key is announced by the time the call raises
 p = P(); log = []
-p.param.watch(lambda e: log.append((e.name, e.new)), ['a', 'c'])
+p.param.watch(lambda *es: log.extend((e.name, e.new) for e in es), ['a', 'c'])
 try:
     p.param.update(a=1, b=5)
 except ValueError:
